@@ -27,6 +27,8 @@ FIXED = {
  "fix: the memory store does not hand out": ("N1", ["C15", "C10", "C04"], "patching a copy changed the source's user metadata (shared map); a failed patch could alter the stored object", "corpus/gcs/N1-memstore-metadata-map-aliased.json"),
  "fix: the file store walks a bucket": ("B7", ["C11", "C09"], "file store listed 'b/d.e' before 'b.c'; page 2 and prefix queries lost entries", "corpus/gcs/B7-filestore-walk-order.json"),
  "fix: rewrite (copy) parses": ("B2", ["C15", "C20"], "copy to a destination containing '/o/' wrote to the truncated name; a destination without '/o/' panicked", "corpus/gcs/B2-copy-dest-with-o.json"),
+ "fix: the file store makes each object operation atomic": ("B8", ["C07", "C09"], "file store: a read overlapping an upload/compose/copy of the same object was served new content with old or no metadata (torn read)", "corpus/gcsconc/B8-filestore-torn-read.json"),
+ "fix: upload and patch read the metadata they respond with": ("D1", ["C07", "C10", "C20"], "upload/patch built their response from a metadata read taken after releasing the object lock: it could describe a concurrent writer's object, and panicked if the object had just been deleted", "corpus/gcsconc/D1-upload-response-after-unlock-foreign.json"),
  "fix: compose without a destination": ("B3", ["C15", "C20"], "compose without a destination resource panicked (nil dereference)", "corpus/gcs/B3-compose-without-destination.json"),
 }
 
